@@ -256,6 +256,15 @@ def leaf_contracts():
         returns="none", inline=INL + ["Equality.commas_to_list"],
         property_clauses={"the_arguments_as_text_in_order": "C01"}, **{k: v for k, v in base.items() if k != "inline"}))
     cs.append(Contract(
+        target=f"{FN}/strings/substring.py::Substring._produce_value",
+        types={**pair, "self.children.0.children.0.g_value": "scalar", "self.children.0.children.1.g_value": "int"}, modifies=pmods,
+        raises={"DataException": {"when": "%s < 0" % b_, "exact": True}},
+        ensures={"the_first_n_characters_of_the_text": "self.value == (str_of(%s) if %s >= len(str_of(%s)) else str_of(%s)[0:%s])" % (a_, b_, a_, a_, b_)},
+        covers={"cuts": "self.value == 'ab' and %s == 2" % b_},
+        returns="none", inline=INL + ["Matchable._value_one", "Matchable._value_two", "Matchable._child_one", "Matchable._child_two", "Equality.left", "Equality.right"],
+        property_clauses={"the_first_n_characters_of_the_text": "C01", "raises:DataException.must": "C01", "raises:DataException.only_when": "C01"},
+        **{k: v for k, v in base.items() if k != "inline"}))
+    cs.append(Contract(
         target=f"{FN}/strings/starts_with.py::StartsWith._produce_value",
         types={**pair, "self.children.0.children.0.g_value": "scalar", "self.children.0.children.1.g_value": "scalar"}, modifies=pmods,
         ensures={"prefix_test_on_the_stripped_text": "self.value == strip(str_of(%s)).startswith(strip(str_of(%s)))" % (a_, b_)},
